@@ -614,9 +614,10 @@ const (
 	eKeepReader = "keep-reader"
 	eKeepNew    = "keep-new"
 	eKeepLoad   = "keep-load"
+	eKeepLoaded = "keep-loaded" // tpl := root.Load(page).Fill(data) ONCE; tpl.Render() every time
 )
 
-var keepEntries = []string{eKeepString, eKeepReader, eKeepNew, eKeepLoad}
+var keepEntries = []string{eKeepString, eKeepReader, eKeepNew, eKeepLoad, eKeepLoaded}
 
 func isKeep(entry string) bool { return strings.HasPrefix(entry, "keep-") }
 
@@ -642,7 +643,7 @@ func applicable(p cat.Program, entry string) bool {
 		return len(p.Opts) == 0 && !usesLayout(p)
 	case eNodes:
 		return !p.FileOnly && len(p.Opts) == 0
-	case eAssign, eKeepLoad:
+	case eAssign, eKeepLoad, eKeepLoaded:
 		return true
 	case eKeepString, eKeepReader, eKeepNew:
 		return !p.FileOnly
@@ -667,12 +668,15 @@ func applicable(p cat.Program, entry string) bool {
 //	6 "stringly": int, float and bool -> their decimal / true|false text
 //	7 "swapped": string -> nil, int -> bool (non-zero), bool -> int (1 / 0)
 const (
-	nVariants = 8
+	nVariants = 9
 	vEmpty    = 3
 	vNil      = 4
 	vJSON     = 5
 	vStringly = 6
 	vSwapped  = 7
+	// vStale is used by failing calls only (after-failure dimension): the same names bound to
+	// recognisably stale values (strings + "-STALE", integers + 1000)
+	vStale = 8
 )
 
 var retypeVariants = []int{vJSON, vStringly, vSwapped}
@@ -740,20 +744,24 @@ func variant(v vals.V, k int) vals.V {
 	if k == 0 {
 		return v
 	}
-	if k >= vJSON {
+	if k >= vJSON && k != vStale {
 		return retype(v, k)
 	}
 	out := vals.V{K: v.K, S: v.S}
 	switch v.K {
 	case "string":
-		if k == 1 {
+		if k == vStale {
+			out.S = v.S + "-STALE"
+		} else if k == 1 {
 			out.S = v.S + "-v1"
 		} else {
 			out.S = "v2-" + v.S
 		}
 	case "int":
 		i, _ := strconv.Atoi(v.S)
-		if k == 1 {
+		if k == vStale {
+			out.S = strconv.Itoa(i + 1000)
+		} else if k == 1 {
 			out.S = strconv.Itoa(i + 1)
 		} else {
 			out.S = strconv.Itoa(i*2 + 10)
@@ -772,7 +780,7 @@ func variant(v vals.V, k int) vals.V {
 			for i, j := 0, len(l)-1; i < j; i, j = i+1, j-1 {
 				l[i], l[j] = l[j], l[i]
 			}
-		} else if len(l) > 1 {
+		} else if k == 2 && len(l) > 1 {
 			l = l[1:]
 		}
 		out.L = l
